@@ -20,7 +20,6 @@ func init() {
 	verifRegister("HarnessC06_TCPLate1", HarnessC06_TCPLate1)
 	verifRegister("HarnessC06_Chan", HarnessC06_Chan)
 	verifRegister("HarnessC06_TCPBack", HarnessC06_TCPBack)
-	verifRegister("HarnessC06_TCPBack2", HarnessC06_TCPBack2)
 	verifRegister("HarnessC06_Relaxed", HarnessC06_Relaxed)
 	verifRegister("HarnessC06_RelaxedLate", HarnessC06_RelaxedLate)
 	verifRegister("HarnessC06_RelaxedTwo", HarnessC06_RelaxedTwo)
@@ -208,7 +207,6 @@ func HarnessC06_TCPLate1() { c06TCP(1, 2, true, 2) }
 // two senders, one section each, into a receive channel of capacity 1 and a receiver that starts late: the second
 // committed batch waits in its connection handler until the receiver makes room (back-pressure)
 func HarnessC06_TCPBack()  { c06TCP(2, 1, true, 1, 1) }
-func HarnessC06_TCPBack2() { c06TCP(2, 2, true, 1, 1) }
 
 // Go-channel resources: OutputChan -> InputChan
 func HarnessC06_Chan() {
